@@ -23,7 +23,7 @@ class Opd:
         self.kind, self.ty, self.n, self.lit, self.wrap, self.xform = kind, ty, n, lit, wrap, xform
 
     def size(self):
-        return {"typed": self.n, "untyped": self.n, "reg": 4, "lit": 0}[self.kind]
+        return {"typed": self.n, "untyped": self.n, "reg": 4, "lit": 0, "sub": 16}[self.kind]
 
 
 class Rule:
@@ -49,6 +49,8 @@ class Rule:
                 inner = "{%s}" % name
             elif o.kind == "reg":
                 inner = "{%s: reg}" % name
+            elif o.kind == "sub":
+                inner = "{%s: opnd}" % name
             else:
                 inner = case(o.lit)
             parts.append((self.seps[k] if k else "") + o.wrap % inner)
@@ -70,7 +72,7 @@ class Rule:
                     parts.append(name)
             elif o.kind == "untyped":
                 parts.append("%s`%d" % (name, o.n))
-            elif o.kind == "reg":
+            elif o.kind in ("reg", "sub"):
                 parts.append(name)
         return " @ ".join(parts)
 
@@ -107,10 +109,16 @@ def encode(rule, vals, addr=None):
             out += tc(v, o.n)
         elif o.kind == "reg":
             out += tc(v, 4)
+        elif o.kind == "sub":
+            # (which sub-rule, value of its u8 parameter): tag byte, then the value
+            j, x = v
+            if not in_range("u", 8, x):
+                return None
+            out += tc(j + 1, 8) + tc(x, 8)
     return out
 
 
-def gen_rules(rng, families=False, prodref=False):
+def gen_rules(rng, families=False, prodref=False, subs=False):
     n = rng.randrange(3, 10)
     mn = rng.sample(MNEMONICS, min(n, len(MNEMONICS)))
     rules, shapes = [], set()
@@ -126,6 +134,10 @@ def gen_rules(rng, families=False, prodref=False):
                 if nn % 16 == 0 and rng.random() < 0.4:
                     x = rng.choice(["le", "swap"])
                 opds.append(Opd("typed", rng.choice("usi"), nn, wrap=wrap, xform=x))
+            elif subs and k < 0.62 and opds and opds[-1].kind in ("typed", "untyped"):
+                # an operand that is itself a sub-rule taking an expression (`#expr` / `[expr]`), to the right of a
+                # value operand: its expression is evaluated in the instruction's scope, not in the rule's
+                opds.append(Opd("sub", n=8, wrap="%s"))
             elif k < 0.6:
                 opds.append(Opd("untyped", n=rng.choice([4, 8, 16]), wrap=wrap))
             elif k < 0.8:
@@ -217,12 +229,20 @@ class Prog:
     pass
 
 
-def gen_prog(rng, faults=True, banks=None, families=False, prodref=False):
+def gen_prog(rng, faults=True, banks=None, families=False, prodref=False, subs=False):
     """structure + expectation; sizes are static, so the layout is computed in one walk"""
     p = Prog()
-    p.rules = gen_rules(rng, families, prodref)
+    p.rules = gen_rules(rng, families, prodref, subs)
     p.items = []
     p.fault = None
+    p.has_sub = any(o.kind == "sub" for r in p.rules for o in r.opds)
+    pconsts = []
+    if p.has_sub:
+        # global constants named like rule parameters: a sub-rule argument that mentions `p0` means this constant
+        for j in range(3):
+            if rng.random() < 0.5:
+                pconsts.append("p%d" % j)
+                p.items.append(["const", "p%d" % j, ("lit", rng.randrange(0, 200))])
     if families:
         # symbols named like the literal operands: `ld a` must still select the rule that spells `a`
         for nm in sorted(set(o.lit for r in p.rules for o in r.opds if o.kind == "lit")):
@@ -264,6 +284,9 @@ def gen_prog(rng, faults=True, banks=None, families=False, prodref=False):
                     elif o.kind == "reg":
                         nme, v = rng.choice(REGS)
                         ops.append((("text", nme), v))
+                    elif o.kind == "sub":
+                        j, x = rng.randrange(2), rng.choice([0, 1, 255, rng.randrange(256)])
+                        ops.append((("sub", j, ("lit", x)), (j, x)))
                     else:
                         v = boundary(rng, o)
                         ops.append((("lit", v), v))
@@ -372,6 +395,18 @@ def gen_prog(rng, faults=True, banks=None, families=False, prodref=False):
                 elif o.kind == "reg":
                     nme, v = rng.choice(REGS)
                     ops.append((("text", nme), v))
+                elif o.kind == "sub":
+                    j = rng.randrange(2)
+                    if pconsts and rng.random() < 0.6:
+                        nm = rng.choice(pconsts)
+                        ops.append((("sub", j, ("sym", nm)), (j, syms[nm])))
+                    elif not pconsts and faults and p.fault is None and rng.random() < 0.15:
+                        # the name of an earlier parameter of the enclosing rule, no such symbol: unknown symbol
+                        ops.append((("sub", j, ("sym", "p0")), (j, 0)))
+                        p.fault = "undef"
+                    else:
+                        x = rng.choice([0, 1, 255, rng.randrange(256)])
+                        ops.append((("sub", j, ("lit", x)), (j, x)))
                 else:
                     # an operand in front of an operator-like separator must not contain that operator
                     nxt = rule.seps[k + 1].strip() if k + 1 < len(rule.opds) else ""
@@ -428,6 +463,8 @@ def render_value(spec, label_map, rng=None):
         return label_map(spec[1])
     if k == "sym+":
         return "%s + %d" % (label_map(spec[1]), spec[2])
+    if k == "sub":
+        return ["#%s", "[%s]"][spec[1]] % render_value(spec[2], label_map, rng)
     raise ValueError(spec)
 
 
@@ -455,6 +492,12 @@ def render(p, rng=None, case=None, blanks=None, comment=None, rule_order=None, b
         for ri in order[b:b + per]:
             r = p.rules[ri]
             out.append("    %s => %s" % (r.pattern(), r.production()))
+        out.append("}")
+    if getattr(p, "has_sub", False):
+        out.append("#subruledef opnd")
+        out.append("{")
+        out.append("    #{v: u8} => 0x01 @ v")
+        out.append("    [{v: u8}] => 0x02 @ v")
         out.append("}")
     out.append("#subruledef reg")
     out.append("{")
